@@ -20,11 +20,11 @@ CONV = {'en-us': (',', '.'), 'es-mx': (',', '.'), 'zh-cn': (',', '.'), 'ja-jp': 
 CULTURES = sorted(CONV)
 C15 = Context(prec=15, rounding=ROUND_HALF_EVEN)
 CARRIERS = {
-    'en-us': ['{}', 'x {} y', 'the total was {} in the end'], 'es-es': ['{}', 'x {} y', 'el total fue {} al final'],
+    'en-us': ['{}', 'x {} y', 'the total was {} in the end', 'i will take that one , it costs {} today', 'which one is {} ?'], 'es-es': ['{}', 'x {} y', 'el total fue {} al final'],
     'es-mx': ['{}', 'x {} y', 'el total fue {} al final'], 'fr-fr': ['{}', 'x {} y', 'le total est {} maintenant'],
     'pt-br': ['{}', 'x {} y', 'o total foi {} no final'], 'de-de': ['{}', 'x {} y', 'die Summe war {} am Ende'],
     'it-it': ['{}', 'x {} y', 'il totale era {} alla fine'], 'nl-nl': ['{}', 'x {} y', 'het totaal was {} aan het eind'],
-    'zh-cn': ['{}', 'x {} y', '总数是 {} 了'], 'ja-jp': ['{}', 'x {} y', '合計は {} です'],
+    'zh-cn': ['{}', 'x {} y', '总数是 {} 了', '我们的队伍有 {} 人', '大陆上有 {} 个'], 'ja-jp': ['{}', 'x {} y', '合計は {} です'],
 }
 _MODELS = {}
 
@@ -69,7 +69,16 @@ def run_case(case):
     q = case['carrier'].format(lit_q)
     pos = q.index(lit_q)
     model = models(culture)[1 if pct else 0]
-    res = model.parse(q)
+    if case.get('thread'):
+        # the property holds for any caller: every fourth case runs on a fresh (non-importing) thread
+        import threading
+        box = []
+        t = threading.Thread(target=lambda: box.append(model.parse(q)))
+        t.start()
+        t.join()
+        res = box[0]
+    else:
+        res = model.parse(q)
     got = [{'text': r.text, 'start': r.start, 'end': r.end, 'type': r.type_name, 'value': (r.resolution or {}).get('value')} for r in res]
     exp = C15.plus(Decimal(('-' if case['neg'] else '') + case['int'] + ('.' + case['frac'] if case['frac'] else '')))
     vs = []
@@ -101,7 +110,7 @@ def run_case(case):
             vs.append(V('VALUE_WRONG', {'query': q, 'expected': str(exp), 'got': got[0]}, bucket='VALUE:' + bucket))
     nt = bool(case['frac']) or (case['grouped'] and len(case['int']) > 3) or case['neg']
     return R(vs, nontrivial=nt, labels=[culture, 'pct' if pct else 'num', form, 'neg' if case['neg'] else 'pos',
-                                        'alone' if case['carrier'] == '{}' else 'carrier'],
+                                        'alone' if case['carrier'] == '{}' else 'carrier'] + (['worker_thread'] if case.get('thread') else []),
              obs={'query': q, 'entities': got}, key=[culture, pct, q])
 
 
@@ -148,13 +157,14 @@ def int_strings():
 
 
 def cases(culture=None):
-    def mk(c, i, frac, grouped, neg, carrier_i, pct):
+    def mk(c, i, frac, grouped, neg, carrier_i, pct, thread):
         # keep the literal within 15 significant digits: beyond that the documented precision rounds it
         frac = frac[:max(0, 15 - len(i))]
-        return {'culture': c, 'int': i, 'frac': frac, 'grouped': grouped, 'neg': neg, 'carrier': CARRIERS[c][carrier_i % 3], 'pct': pct}
+        return {'culture': c, 'int': i, 'frac': frac, 'grouped': grouped, 'neg': neg, 'carrier': CARRIERS[c][carrier_i % len(CARRIERS[c])], 'pct': pct, 'thread': thread}
     frac = st.one_of(st.just(''), st.just(''), st.text('0123456789', min_size=1, max_size=6))
     return st.builds(mk, st.sampled_from(CULTURES) if culture is None else st.just(culture), int_strings(), frac, st.booleans(),
-                     st.sampled_from([False, False, True]), st.integers(0, 2), st.sampled_from([False, False, True]))
+                     st.sampled_from([False, False, True]), st.integers(0, 9), st.sampled_from([False, False, True]),
+                     st.sampled_from([False, False, False, True]))
 
 
 def small_integers():
